@@ -1,7 +1,7 @@
 /-
   C03 — honest execution traces satisfy the AIR: completeness of the stack AIR on honest rows.
 
-  For every operation in `airProved` (71 of the 77 non-control operations; U32ADD / U32ADD3 on u32 operands), every machine state of
+  For every operation in `airProved` (76 of the 78 non-control operations - all that the executor model executes; u32 arithmetic on u32 operands), every machine state of
   depth ≥ 16 with canonical stack elements and every successful step `vm.step op = .ok vm'`, the row
   pair the processor writes — current row: clock, fmp, opcode, the helper registers of
   `Model.helpersOf`, the top 16 stack cells, depth `b0`, any overflow address `b1`, the depth helper
@@ -12,8 +12,8 @@
   slot by slot on every run; `helpersOf`, `h0Of` and the next-row cells are compared with the rows of
   real traces on every run (`hrow` requests of the C03 generator).
 
-  Not covered (left to the monitor on real traces): U32SPLIT, U32SUB, U32MUL, U32MADD, HPERM, FRIE2F4,
-  RCOMBBASE, and the rows of control operations.
+  Not covered (left to the monitor on real traces): FRIE2F4 and RCOMBBASE (not in the executor model)
+  and the rows of control operations.
 -/
 
 import Miden.Props.C03Air.A0
@@ -28,19 +28,20 @@ import Miden.Props.C03Air.B3
 import Miden.Props.C03Air.B4
 import Miden.Props.C03Air.B5
 import Miden.Props.C03Air.B6
+import Miden.Props.C03Air.B7
 namespace Miden.C03
 open Miden Miden.Air Miden.Vm
 
 /-- Operations whose honest rows are proved to satisfy the stack AIR. -/
 def airProved : Op → Bool
-  | .u32split | .u32sub | .u32mul | .u32madd | .hperm | .frie2f4 | .rcombbase => false
+  | .frie2f4 | .rcombbase => false
   | op => !op.isControl
 
-/-- U32ADD and U32ADD3 are defined on u32 operands only (on other operands they execute, but the row
+/-- The u32 arithmetic operations are defined on u32 operands only (on other operands they execute, but the row
     is not provable: known finding C03-u32-arith-on-non-u32-operands). -/
 def U32Operands (vm : Vm) : Op → Prop
-  | .u32add => vm.stack.getD 0 0 < two32 ∧ vm.stack.getD 1 0 < two32
-  | .u32add3 => vm.stack.getD 0 0 < two32 ∧ vm.stack.getD 1 0 < two32 ∧ vm.stack.getD 2 0 < two32
+  | .u32add | .u32sub | .u32mul => vm.stack.getD 0 0 < two32 ∧ vm.stack.getD 1 0 < two32
+  | .u32add3 | .u32madd => vm.stack.getD 0 0 < two32 ∧ vm.stack.getD 1 0 < two32 ∧ vm.stack.getD 2 0 < two32
   | _ => True
 
 theorem honest_step_satisfies_stack_air (vm vm' : Vm) (op : Op) (hp : airProved op = true)
@@ -115,14 +116,14 @@ theorem honest_step_satisfies_stack_air (vm vm' : Vm) (op : Op) (hp : airProved 
   | push v => exact honest_push v vm vm' hl h
   | assert code => exact honest_assert code vm vm' hl h
   | u32assert2 code => exact honest_u32assert2 code vm vm' hl h
-  | u32split => exact absurd hp (by decide)
+  | u32split => exact honest_u32split vm vm' hl hc h
   | u32add => exact honest_u32add vm vm' hl hu h
   | u32add3 => exact honest_u32add3 vm vm' hl hu h
-  | u32sub => exact absurd hp (by decide)
-  | u32mul => exact absurd hp (by decide)
-  | u32madd => exact absurd hp (by decide)
+  | u32sub => exact honest_u32sub vm vm' hl hu h
+  | u32mul => exact honest_u32mul vm vm' hl hu h
+  | u32madd => exact honest_u32madd vm vm' hl hu h
   | u32div => exact honest_u32div vm vm' hl h
-  | hperm => exact absurd hp (by decide)
+  | hperm => exact honest_hperm vm vm' hl h
   | frie2f4 => exact absurd hp (by decide)
   | rcombbase => exact absurd hp (by decide)
   | join => exact absurd hp (by decide)
@@ -143,9 +144,9 @@ example : H0ok 16 ((h0Of 16 : Nat) : FP) ∧ H0ok 23 ((h0Of 23 : Nat) : FP) :=
   ⟨h0Of_ok 16 (by decide) (by decide), h0Of_ok 23 (by decide) (by decide)⟩
 
 example : airProved .add = true ∧ airProved .mstream = true ∧ airProved (.push 7) = true
-    ∧ airProved .u32mul = false ∧ airProved .u32div = true ∧ airProved .join = false := by decide
+    ∧ airProved .u32mul = true ∧ airProved .hperm = true ∧ airProved .frie2f4 = false ∧ airProved .join = false := by decide
 
 /-- Number of operations covered. -/
-example : (Op.all.filter airProved).length = 71 := by decide
+example : (Op.all.filter airProved).length = 76 := by decide
 
 end Miden.C03
